@@ -14,6 +14,8 @@ CONSTANTS Ctors,      \* subset of node constructors to enumerate
           Cutoffs,    \* cutoff names for the "cutoff" action
           RecipeKinds,\* bind recipe shapes
           Ops,        \* var write operations
+          Effs,       \* side effects of user functions / handlers to enumerate
+          MaxSubs,    \* subscriptions per behaviour
           MaxVars, MaxNodes, MaxObs, MaxActs, MaxRounds, MaxH,
           Late,       \* BOOLEAN: allow node creation after the first observer
           Export      \* BOOLEAN: print REPLAY lines
